@@ -71,8 +71,8 @@ fn first_serving(s: u8) -> u32 {
     match s {
         0 => 1,
         1 | 2 | 3 => 2,
-        4 | 6 => 4,
-        7 => 6,
+        4 | 6 | 8 => 4,
+        7 | 9 => 6,
         _ => 3,
     }
 }
@@ -87,6 +87,8 @@ fn source(r: &RecipeSpec, vals: &[QSpec]) -> String {
         5 => s.push_str(">> servings: 3 people|6\n"),
         6 => s.push_str(">> servings: 4|2\n"),
         7 => s.push_str("---\nservings: [6, 2, 4]\n---\n"),
+        8 => s.push_str("---\ntitle: T\nserves: 4\n---\n"),
+        9 => s.push_str(">> yield: 6 pieces\n"),
         _ => {}
     }
     s.push_str("Add");
@@ -399,6 +401,8 @@ fn check(env: &Env, pi: usize, spec: &RecipeSpec, local: &mut Local) -> Vec<Viol
         4 => Some(vec![4]),
         6 => Some(vec![4, 2]),
         7 => Some(vec![6, 2, 4]),
+        8 => Some(vec![4]),
+        9 => Some(vec![6]),
         _ => Some(vec![3, 6]),
     };
     if declared != want_declared {
@@ -433,7 +437,7 @@ fn specs(tier: Tier, vals: &[QSpec]) -> Vec<RecipeSpec> {
         }
     }
     // no quantity
-    for servings in 0..=7u8 {
+    for servings in 0..=9u8 {
         v.push(RecipeSpec { comps: vec![CompSpec { kind: 'i', value: None, unit: "", lock: false }], servings, reference: 0, inline: true });
     }
     // cookware and timers
@@ -450,7 +454,7 @@ fn specs(tier: Tier, vals: &[QSpec]) -> Vec<RecipeSpec> {
     for val in 0..nv {
         for unit in combo_units {
             for lock in [false, true] {
-                for servings in 0..=7u8 {
+                for servings in 0..=9u8 {
                     for val2 in [0usize, 7, 13] {
                         v.push(RecipeSpec {
                             comps: vec![
